@@ -403,7 +403,7 @@ Qed.
 
 (* ---- refused transitions (entry guard of the target closed) --------------------------- *)
 Lemma refused_is_skipped_lemma p s fi t r :
-  needs_true s fi t = true -> guard_ok s (frame_of p (t_far t)) = false ->
+  needs_true s fi t = true -> guard_ok s (t_far t) (frame_of p (t_far t)) = false ->
   pick p s fi (t :: r) = pick p s fi r.
 Proof. intros N G. cbn [pick]. rewrite N, G. reflexivity. Qed.
 
@@ -521,4 +521,89 @@ Proof.
     + intros e [<-|[]]. left. reflexivity.
     + apply fold_wf. exact W1.
     + apply pending_survives; [exact Q2|exact W1|exact U].
+Qed.
+
+(* ---- marks that are never transit-reset (e.g. a mark used only by `let` marker needs) ------ *)
+Definition no_transit (h : list ev) : Prop := forall e, In e h -> e <> TransitMark KUpd.
+
+Lemma stamped_in h : forall t p, In p (stamped t h) -> In (snd p) h.
+Proof.
+  induction h as [|e r IH]; intros t p Hp; [destruct Hp|].
+  destruct e; cbn [stamped] in Hp.
+  - right. apply (IH _ _ Hp).
+  - destruct Hp as [<-|Hp]; [left; reflexivity|right; apply (IH _ _ Hp)].
+  - destruct Hp as [<-|Hp]; [left; reflexivity|right; apply (IH _ _ Hp)].
+  - destruct Hp as [<-|Hp]; [left; reflexivity|right; apply (IH _ _ Hp)].
+Qed.
+
+Lemma updated_without_transit_lemma d h : no_transit h ->
+  need_update (run d h) =
+  match last_tick (filter is_write (stamped 0 h)) with
+  | None => false
+  | Some w => match last_tick (filter (is_reset KUpd) (stamped 0 h)) with
+              | None => true
+              | Some r => Nat.leb r w
+              end
+  end.
+Proof.
+  intro N. rewrite updated_history_lemma. unfold updated_spec.
+  destruct (last_tick (filter is_write (stamped 0 h))) as [w|]; [|reflexivity].
+  destruct (last_tick (filter (is_reset KUpd) (stamped 0 h))) as [r|]; [|reflexivity].
+  assert (E : existsb (is_transit_at KUpd r) (stamped 0 h) = false).
+  { apply existsb_false. intros p Hp. destruct (is_transit_at KUpd r p) eqn:T; [|reflexivity].
+    exfalso. apply transit_at_is_tr in T. destruct T as [T _]. unfold is_tr in T.
+    pose proof (stamped_in h 0 p Hp) as Hin. destruct (snd p) as [|ws|k|k]; try discriminate.
+    destruct k; [|discriminate]. apply (N _ Hin). reflexivity. }
+  rewrite E. cbn [negb]. rewrite andb_true_r.
+  destruct (Nat.leb r w) eqn:L.
+  - apply Nat.leb_le in L. destruct (Nat.ltb r w) eqn:L2; [reflexivity|].
+    apply Nat.ltb_ge in L2. cbn. apply Nat.eqb_eq. lia.
+  - apply Nat.leb_gt in L. destruct (Nat.ltb r w) eqn:L2; [apply Nat.ltb_lt in L2; lia|].
+    cbn. apply Nat.eqb_neq. lia.
+Qed.
+
+(* the transit markers run in a tick are exactly those of the needs of the transition taken from
+   the active frame: a `let` (entry guard) need never contributes one *)
+Lemma pick_in p s fi ts t : pick p s fi ts = Some t -> In t ts.
+Proof.
+  induction ts as [|x r IH]; cbn [pick]; [discriminate|].
+  destruct (needs_true s fi x && guard_ok s (t_far x) (frame_of p (t_far x))).
+  - intro H. inversion H. left. reflexivity.
+  - intro H. right. apply IH. exact H.
+Qed.
+
+Lemma in_map_kwrite m ws : ~ In (KTransitMark m) (map KWrite ws).
+Proof. induction ws as [|w r IH]; cbn; [tauto|]. intros [H|H]; [discriminate|auto]. Qed.
+
+Lemma in_enter_evs m p F : ~ In (KTransitMark m) (enter_evs p F).
+Proof.
+  unfold enter_evs. intro H. apply in_app_or in H. destruct H as [H|H].
+  - apply in_map_iff in H. destruct H as [x [E _]]. discriminate.
+  - apply (in_map_kwrite _ _ H).
+Qed.
+
+Lemma transit_marks_origin_lemma p first s pre post m :
+  In (KTransitMark m) (snd (tick p first s pre post)) ->
+  exists t n, In t (f_trans (frame_of p (k_active s))) /\ In n (t_needs t) /\
+              m = resolve_need (k_active s) n.
+Proof.
+  unfold tick. pose proof (apply_writes_active pre s) as A.
+  unfold framer_evs. rewrite A.
+  destruct first.
+  - cbn [snd]. intro H. exfalso.
+    apply in_app_or in H. destruct H as [H|H]; [apply (in_map_kwrite _ _ H)|].
+    apply in_app_or in H. destruct H as [H|H]; [|apply (in_map_kwrite _ _ H)].
+    apply in_app_or in H. destruct H as [H|H]; [apply (in_enter_evs _ _ _ H)|apply (in_map_kwrite _ _ H)].
+  - destruct (pick p (apply_all s (map KWrite pre)) (k_active s) (f_trans (frame_of p (k_active s)))) as [t|] eqn:P.
+    + cbn [snd]. intro H.
+      apply in_app_or in H. destruct H as [H|H]; [exfalso; apply (in_map_kwrite _ _ H)|].
+      apply in_app_or in H. destruct H as [H|H]; [|exfalso; apply (in_map_kwrite _ _ H)].
+      apply in_app_or in H. destruct H as [H|H].
+      * apply in_map_iff in H. destruct H as [n [E Hn]]. inversion E; subst.
+        exists t, n. split; [apply (pick_in _ _ _ _ _ P)|]. split; [exact Hn|reflexivity].
+      * exfalso. apply in_app_or in H. destruct H as [H|H]; [apply (in_map_kwrite _ _ H)|].
+        apply in_app_or in H. destruct H as [H|H]; [apply (in_enter_evs _ _ _ H)|apply (in_map_kwrite _ _ H)].
+    + cbn [snd]. intro H. exfalso.
+      apply in_app_or in H. destruct H as [H|H]; [apply (in_map_kwrite _ _ H)|].
+      apply in_app_or in H. destruct H as [H|H]; apply (in_map_kwrite _ _ H).
 Qed.
